@@ -207,6 +207,20 @@ func (s *Solver) Check(timeoutMs int) (Result, error) {
 	}
 }
 
+// CheckWithModel: push, assert t, check, read the values of vars when sat, pop.
+func (s *Solver) CheckWithModel(t *Term, timeoutMs int, vars []*Term) (Result, map[string]*big.Int, error) {
+	lvl := s.level
+	s.Push()
+	s.Assert(t)
+	r, err := s.Check(timeoutMs)
+	var m map[string]*big.Int
+	if err == nil && r == Sat && len(vars) > 0 {
+		m, _ = s.Values(vars)
+	}
+	s.PopTo(lvl)
+	return r, m, err
+}
+
 // CheckAssuming: push, assert t, check, pop.
 func (s *Solver) CheckWith(t *Term, timeoutMs int) (Result, error) {
 	lvl := s.level
@@ -404,11 +418,15 @@ func (s *Solver) refInt(t *Term) string {
 		}
 		dp, have := s.divPairs[key]
 		if !have || dp.level > s.level {
-			dp = divPair{name: name, level: s.level}
-			s.divPairs[key] = dp
+			dp = divPair{name: name, level: s.level, a: a, b: b}
 			q, m := name+"_q", name+"_m"
 			s.send(fmt.Sprintf("(declare-const %s Int)", q))
 			s.send(fmt.Sprintf("(declare-const %s Int)", m))
+			// functional consistency with the pairs introduced for other operand terms
+			for _, o := range s.divPairs {
+				s.send(fmt.Sprintf("(assert (=> (and (= %s %s) (= %s %s)) (and (= %s %s_q) (= %s %s_m))))", a, o.a, b, o.b, q, o.name, m, o.name))
+			}
+			s.divPairs[key] = dp
 			s.send(fmt.Sprintf("(assert (=> (not (= %s 0)) (and (= %s (+ (* %s %s) %s)) (< (abs %s) (abs %s)) (or (= %s 0) (and (> %s 0) (> %s 0)) (and (< %s 0) (< %s 0))))))", b, a, q, b, m, m, b, m, m, a, m, a))
 		}
 		q, m := dp.name+"_q", dp.name+"_m"
@@ -460,6 +478,7 @@ func (s *Solver) declareTable(id string) {
 type divPair struct {
 	name  string
 	level int
+	a, b  string
 }
 
 type tableDecl struct {
